@@ -1,4 +1,89 @@
-From Verif Require Import model.EvalSync.
-Example C06_placeholder : engine_of [ [(0,1);(4,2)]; [(4,256)] ] [] = [(4, 258)].
-Proof. vm_compute. reflexivity. Qed.
-Print Assumptions C06_placeholder.
+(* C06 — Every formula sample is computed from inputs of a single timestamp.
+   Statements only; every proof is `exact <lemma>` from proofs/EvalSyncFacts.v.
+
+   [engine n f ords fuel ss]: the samples a FormulaEngine over the n input streams [ss] emits, as a
+   function of the stream CONTENTS (model/EvalSync.v).  [ords r] is the iteration order of the set of
+   finished fetch tasks in round r (arbitrary in CPython); [f] is the formula.
+   [grid_inputs n d T0 ms ss]: every input is consecutive with the common step d, input i starts
+   [ms i] steps before T0, T0 is the latest first timestamp, and every input reaches T0.
+
+   PARTIAL by nature: channel delivery, the receiver limit and task scheduling are runtime behaviour.
+   The theorems are about the function of the stream contents; that the running engine computes this
+   function for every interleaving with backlog within the receiver capacity (as the property assumes)
+   is what the correspondence runs of tools/harness/c06.py test. *)
+From Coq Require Import Permutation Lia.
+From Verif Require Import model.EvalSync proofs.EvalSyncFacts.
+
+(* The k-th emitted sample is stamped T0 + k*d and computed from exactly the values every input
+   carries for T0 + k*d -- for every choice of the "arbitrary" set order in every round. *)
+Theorem C06_single_ts : forall n f ords d T0 ms ss fuel,
+  0 < d -> (0 < n)%nat -> (forall r, Permutation (seq 0 n) (ords r)) ->
+  grid_inputs n d T0 ms ss ->
+  (forall i, (i < n)%nat -> (length (ss i) < fuel)%nat) ->
+  forall k, (forall i, (i < n)%nat -> (ms i + k < length (ss i))%nat) ->
+  exists vs, nth_error (engine n f ords fuel ss) k = Some (T0 + Z.of_nat k * d, f vs) /\
+             length vs = n /\
+             forall i, (i < n)%nat -> value_at (ss i) (T0 + Z.of_nat k * d) = Some (nth i vs 0).
+Proof. exact engine_single_ts. Qed.
+
+(* ... and there are exactly as many samples as timestamps from T0 on for which every input has
+   a sample: with C06_single_ts, none skipped, none repeated, none reordered. *)
+Theorem C06_none_skipped_or_repeated : forall n f ords d T0 ms ss fuel L,
+  0 < d -> (0 < n)%nat -> (forall r, Permutation (seq 0 n) (ords r)) ->
+  grid_inputs n d T0 ms ss ->
+  (forall i, (i < n)%nat -> (length (ss i) < fuel)%nat) ->
+  (forall i, (i < n)%nat -> (ms i + L <= length (ss i))%nat) ->
+  (exists i, (i < n)%nat /\ (ms i + L)%nat = length (ss i)) ->
+  length (engine n f ords fuel ss) = L.
+Proof. exact engine_count. Qed.
+
+(* The whole output is independent of the set iteration orders (the schedule never enters the
+   model at all: C06_schedule_free holds by construction, the correspondence makes it meaningful). *)
+Theorem C06_order_free : forall n f ords ords' d T0 ms ss fuel,
+  0 < d -> (0 < n)%nat ->
+  (forall r, Permutation (seq 0 n) (ords r)) -> (forall r, Permutation (seq 0 n) (ords' r)) ->
+  grid_inputs n d T0 ms ss ->
+  (forall i, (i < n)%nat -> (length (ss i) < fuel)%nat) ->
+  engine n f ords fuel ss = engine n f ords' fuel ss.
+Proof. exact engine_order_free. Qed.
+
+(* 3-phase zipper (after the fix `align the per-phase samples ... before zipping`): for ANY three
+   phase streams, each emitted (t, v1, v2, v3) consists of phase samples stamped t. *)
+Theorem C06_3phase_single_ts : forall fuel a b c t v1 v2 v3,
+  In (t, (v1, v2, v3)) (zip3 fuel a b c) -> In (t, v1) a /\ In (t, v2) b /\ In (t, v3) c.
+Proof. exact zip3_single_ts. Qed.
+
+(* equal T0 of the three phase engines: nothing is discarded, the k-th 3-phase sample is stamped
+   T0 + k*d and carries the three phase values of that timestamp. *)
+Theorem C06_3phase : forall d fuel a b c t k,
+  on_grid d t a -> on_grid d t b -> on_grid d t c -> (length a < fuel)%nat ->
+  (k < length a)%nat -> (k < length b)%nat -> (k < length c)%nat ->
+  nth_error (zip3 fuel a b c) k =
+    Some (t + Z.of_nat k * d, (snd (nth k a (0, 0)), snd (nth k b (0, 0)), snd (nth k c (0, 0)))).
+Proof. exact zip3_grid_equal_start. Qed.
+
+(* Remark (C06_3phase_refuted_before_fix, finding F10): the zipper as it was in the unchanged tree
+   is [zip3_unaligned]; proofs/EvalSyncFacts.v:zip3_unaligned_refuted exhibits grid phase streams
+   starting at 0, 1, 0 for which it emits (0, (10, 21, 30)) although phase 2 has no sample stamped 0. *)
+
+(* non-vacuity: three inputs starting at 0 s, 2 s and -1 s (step 1 s), set order [2;0;1] *)
+Example C06_nonvacuous :
+  let ss := [ [(0, 1); (1000000, 2); (2000000, 3); (3000000, 4)];
+              [(2000000, 256); (3000000, 512); (4000000, 768)];
+              [(-1000000, 65536); (0, 131072); (1000000, 196608); (2000000, 262144); (3000000, 327680)] ] in
+  grid_inputs 3 1000000 2000000 (of_list 0%nat [2; 0; 3]%nat) (of_list [] ss) /\
+  engine_of ss [[2; 0; 1]%nat] = [(2000000, 3 + 256 + 262144); (3000000, 4 + 512 + 327680)] /\
+  zip3 9 [(0, 1); (1, 2); (2, 3)] [(1, 5); (2, 6)] [(0, 7); (1, 8); (2, 9)] = [(1, (2, 5, 8)); (2, (3, 6, 9))].
+Proof.
+  cbn zeta. split; [|split; vm_compute; reflexivity].
+  unfold grid_inputs. split; [|split].
+  - intros i Hi. destruct i as [|[|[|i]]]; [| | |lia]; vm_compute; intuition congruence.
+  - exists 1%nat. split; [lia|reflexivity].
+  - intros i Hi. destruct i as [|[|[|i]]]; [| | |lia]; vm_compute; lia.
+Qed.
+
+Print Assumptions C06_single_ts.
+Print Assumptions C06_none_skipped_or_repeated.
+Print Assumptions C06_order_free.
+Print Assumptions C06_3phase_single_ts.
+Print Assumptions C06_3phase.
